@@ -183,11 +183,17 @@ def check_pair(sname, lname, damp, nb, res):
                         with warnings.catch_warnings():
                             warnings.simplefilter("ignore")
                             if k == 0:
+                                insnap = [np.array(x).copy() for x in S + L + [As, freq]]
                                 r = frclim.ntfl(S, L, As, freq)
-                                am_cache[(str(fs_), str(fl_))] = (r.SAM, r.LAM)
+                                if not all(np.array_equal(x, np.array(y)) for x, y in zip(insnap, S + L + [As, freq])):
+                                    msgs.append((case, "ntfl / calcAM modified one of its inputs", "mutate"))
+                                am_cache[(str(fs_), str(fl_))] = (r.SAM.copy(), r.LAM.copy())
                             else:
                                 sam, lam_ = am_cache[(str(fs_), str(fl_))]
+                                s0, l0 = sam.copy(), lam_.copy()
                                 r = frclim.ntfl(sam, lam_, As, freq)  # precomputed apparent masses (documented alternative)
+                                if not (np.array_equal(sam, s0) and np.array_equal(lam_, l0)):
+                                    msgs.append((case, "ntfl modified the apparent-mass arrays it was given", "mutate"))
                     except Exception as e:  # noqa
                         msgs.append((case, "ntfl raised %r" % (e,), "raise"))
                         break
